@@ -411,18 +411,20 @@ func r165(c *Ctx, r *R) {
 	}
 	pc := c.fn(r, ipfshttp, "Connector.postCtx")
 	if pc != nil {
-		for _, ret := range returnsOf(pc) {
-			errV := retResult(ret, 1)
+		// every error value postCtx can return, also through a helper that
+		// reads the response (with the guards of its own path)
+		for _, lf := range returnLeavesDeep(pc, 1) {
+			errV := lf.Val
 			if isNilConst(errV) {
-				b := ret.Block()
-				ok := guardedBy(b, func(g Guard) bool { return gCallErrNil(g, "ipfshttp.Connector).doPostCtx") }) &&
-					guardedBy(b, func(g Guard) bool { return gCallErrNil(g, "ipfshttp.checkResponse") }) &&
-					guardedBy(b, func(g Guard) bool { return gCallErrNil(g, "ioutil.ReadAll", "io.ReadAll") })
-				r.Check(ok, "postCtx:nil-error", ret.Pos(), "no error only when the request, the status check and the body read all succeeded", "postCtx reports success although the request, the status check or the body read failed")
+				has := func(pats ...string) bool {
+					return lf.GuardedBy(func(g Guard) bool { return gCallErrNil(g, pats...) })
+				}
+				ok := has("ipfshttp.Connector).doPostCtx") && has("ipfshttp.checkResponse") && has("ioutil.ReadAll", "io.ReadAll")
+				r.Check(ok, "postCtx:nil-error", lf.Pos, "no error only when the request, the status check and the body read all succeeded", "postCtx reports success although the request, the status check or the body read failed")
 				continue
 			}
-			if call, idx := originCall(errV); call != nil && idx == 1 && nameMatches(callName(call.Common()), "ipfshttp.Connector).doPostCtx") {
-				r.Check(isNilConst(retResult(ret, 0)), "postCtx:transport-no-body", ret.Pos(), "a transport failure returns no body", "a transport failure returns a body: PinLsCid can no longer tell 'daemon down' from 'not pinned'")
+			if call, idx := originCall(errV); call != nil && idx == 1 && nameMatches(callName(call.Common()), "ipfshttp.Connector).doPostCtx") && lf.Ret != nil {
+				r.Check(isNilConst(retResult(lf.Ret, 0)), "postCtx:transport-no-body", lf.Pos, "a transport failure returns no body", "a transport failure returns a body: PinLsCid can no longer tell 'daemon down' from 'not pinned'")
 			}
 		}
 	}
